@@ -1,12 +1,13 @@
-(** C21 — case evaluators.  A case: ROB configuration, a tick script (requests delivered to Top,
-    lower-unit responses delivered to Bottom, numbers of messages drained from both ports) and
-    the per-tick observations of the real component (generated IDs relative to the ID
-    generator's value at the start of the script). *)
+(** C21 — case evaluators.  A case: ROB configuration, a tick script (optional checkpoint round
+    trip, requests delivered to Top, lower-unit responses delivered to Bottom, control commands
+    delivered to Control, numbers of messages drained from the three ports) and the per-tick
+    observations of the real component (generated IDs relative to the ID generator's value at
+    the start of the script). *)
 From Akita Require Import Lib.Base C21.Model.
 Local Open Scope N_scope.
 
 Record case := mk_case {
-  c_size : Z; c_width : Z; c_tcap : N; c_bcap : N;
+  c_size : Z; c_width : Z; c_tcap : N; c_bcap : N; c_ccap : N;
   c_script : list instant;
   o_ticks : list tick_obs }.
 
@@ -28,19 +29,29 @@ Definition sreq_eqb (a b : sreq) : bool :=
   | _, _ => false
   end.
 
+Definition crsp_eqb (a b : crsp) : bool :=
+  (cr_id a =? cr_id b) && (cr_dst a =? cr_dst b) && (cr_rspto a =? cr_rspto b) && (cr_cmd a =? cr_cmd b) &&
+  Bool.eqb (cr_ok a) (cr_ok b).
+
 Definition tobs_eqb (a b : tick_obs) : bool :=
   Bool.eqb (to_progress a) (to_progress b) && list_eqb trsp_eqb (to_top a) (to_top b) &&
-  list_eqb sreq_eqb (to_bot a) (to_bot b) && (to_ntrans a =? to_ntrans b) &&
-  Nat.eqb (to_ntop a) (to_ntop b) && Nat.eqb (to_nbot a) (to_nbot b).
+  list_eqb sreq_eqb (to_bot a) (to_bot b) && list_eqb crsp_eqb (to_ctl a) (to_ctl b) &&
+  (to_ntrans a =? to_ntrans b) && (to_cstate a =? to_cstate b) &&
+  Nat.eqb (to_ntop a) (to_ntop b) && Nat.eqb (to_nbot a) (to_nbot b) && Nat.eqb (to_nctl a) (to_nctl b).
 
 Definition check_case (c : case) : bool :=
-  let r0 := rob_init (c_size c) (c_width c) (c_tcap c) (c_bcap c) in
+  let r0 := rob_init (c_size c) (c_width c) (c_tcap c) (c_bcap c) (c_ccap c) in
   list_eqb tobs_eqb (snd (env_run r0 (c_script c))) (o_ticks c).
 
-(** ---- the property on the observed port traffic (independent of the model's tick) *)
-Fixpoint delivered {A} (sel : instant -> list A) (cnt : tick_obs -> nat) (s : list instant) (n : list tick_obs) : list A :=
-  match s, n with
-  | i :: s', k :: n' => firstn (cnt k) (sel i) ++ delivered sel cnt s' n'
+(** ---- the property on the observed port traffic (independent of the model's tick).
+    Requests are identified by their ID and located among the shadow requests by kind and
+    address, so the predicate is evaluated on scripts whose requests have pairwise distinct
+    IDs and addresses (every generated script has). *)
+Definition q_addr (q : req) : N := match q with QRead _ _ a _ _ _ => a | QWrite _ _ a _ _ _ _ => a end.
+
+Fixpoint delivered_top (s : list instant) (obs : list tick_obs) : list req :=
+  match s, obs with
+  | i :: s', ob :: obs' => firstn (to_ntop ob) (i_top i) ++ delivered_top s' obs'
   | _, _ => []
   end.
 
@@ -51,54 +62,67 @@ Definition same_payload (q : req) (s : sreq) : bool :=
   | _, _ => false
   end.
 
-(** the lower unit's answers to shadow request [sid] among the delivered Bottom responses *)
+(** the lower unit's answers to shadow request [sid] among the Bottom responses delivered so far *)
 Definition answers (sid : N) (bs : list brsp) : list brsp :=
   filter (fun b => match b_rspto b with Some r => r =? sid | None => false end) bs.
 
 Definition result_ok (sid : N) (bs : list brsp) (data : list N) : bool :=
   match answers sid bs with
-  | [] => false                                  (* released without any answer *)
-  | [BData _ d] => data_eqb d data               (* answered once: exactly that result *)
+  | [] => false                                  (* answered before the lower unit completed it *)
+  | [BData _ d] => data_eqb d data               (* completed once: exactly that result *)
   | [_] => data_eqb [] data
   | l => existsb (fun b => match b with BData _ d => data_eqb d data | _ => false end) l || data_eqb [] data
   end.
 
-(** k-th answer on Top vs k-th accepted request / k-th shadow request *)
-Fixpoint answers_in_order (ds : list req) (ss : list sreq) (bs : list brsp) (ts : list trsp) : bool :=
-  match ts with
-  | [] => true
-  | t :: ts' =>
-      match ds, ss with
-      | q :: ds', s :: ss' =>
+(** one Top response against the delivered requests [ds], all shadow requests [ss] and the
+    lower-unit answers delivered up to now [bs] *)
+Definition answer_ok (ds : list req) (ss : list sreq) (bs : list brsp) (t : trsp) : bool :=
+  let '(dst, rspto) := match t with TData _ d r _ _ => (d, r) | TDone _ d r _ => (d, r) end in
+  match find (fun q => q_id q =? rspto) ds with
+  | None => false                                (* RspTo is not the ID of any request *)
+  | Some q =>
+      (dst =? q_src q) &&
+      match find (same_payload q) ss with
+      | None => false                            (* never forwarded to the lower unit *)
+      | Some s =>
           match t with
-          | TData _ dst rspto data tb =>
-              q_is_read q && (rspto =? q_id q) && (dst =? q_src q) && result_ok (s_id s) bs data &&
-              (tb =? Z.of_nat (length data) + 4)%Z
-          | TDone _ dst rspto tb =>
-              negb (q_is_read q) && (rspto =? q_id q) && (dst =? q_src q) &&
-              negb (match answers (s_id s) bs with [] => true | _ => false end) && (tb =? 4)%Z
-          end && answers_in_order ds' ss' bs ts'
-      | _, _ => false
+          | TData _ _ _ data tb => q_is_read q && result_ok (s_id s) bs data && (tb =? Z.of_nat (length data) + 4)%Z
+          | TDone _ _ _ tb => negb (q_is_read q) && negb (match answers (s_id s) bs with [] => true | _ => false end) && (tb =? 4)%Z
+          end
       end
   end.
 
-Fixpoint shadows_match (ds : list req) (ss : list sreq) : bool :=
-  match ss with
-  | [] => true
-  | s :: ss' => match ds with q :: ds' => same_payload q s && shadows_match ds' ss' | [] => false end
+Fixpoint answers_ok (ds : list req) (ss : list sreq) (bs : list brsp) (s : list instant) (obs : list tick_obs) : bool :=
+  match s, obs with
+  | i :: s', ob :: obs' =>
+      let bs' := bs ++ firstn (to_nbot ob) (i_bot i) in
+      forallb (answer_ok ds ss bs') (to_top ob) && answers_ok ds ss bs' s' obs'
+  | _, _ => true
+  end.
+
+(** [a] is a subsequence of [b] *)
+Fixpoint subseq (a b : list N) : bool :=
+  match a, b with
+  | [], _ => true
+  | _ :: _, [] => false
+  | x :: a', y :: b' => if x =? y then subseq a' b' else subseq a b'
   end.
 
 Fixpoint nodupN (l : list N) : bool :=
   match l with [] => true | x :: r => negb (existsb (N.eqb x) r) && nodupN r end.
 
+Definition rsp_to (t : trsp) : N := match t with TData _ _ r _ _ => r | TDone _ _ r _ => r end.
+
 Definition holds_on (c : case) : bool :=
-  let ds := delivered i_top to_ntop (c_script c) (o_ticks c) in
-  let bs := delivered i_bot to_nbot (c_script c) (o_ticks c) in
-  let ss := flat_map to_bot (o_ticks c) in
-  let ts := flat_map to_top (o_ticks c) in
-  (* the shadow ids the drained-to-Bottom requests carry are distinct *)
-  nodupN (map s_id ss) &&
-  shadows_match ds ss &&
-  (* responder only sees drained shadows, so every answered request has its shadow in [ss]
-     whenever Bottom is drained before answers are scripted (the harness guarantees it) *)
-  answers_in_order ds ss bs ts.
+  let scripted := flat_map i_top (c_script c) in
+  if nodupN (map q_id scripted) && nodupN (map q_addr scripted) then
+    let ds := delivered_top (c_script c) (o_ticks c) in
+    let ss := flat_map to_bot (o_ticks c) in
+    let ts := flat_map to_top (o_ticks c) in
+    (* shadow requests: distinct ids, each the payload of a delivered request *)
+    nodupN (map s_id ss) && forallb (fun s => existsb (fun q => same_payload q s) ds) ss &&
+    (* every answer: original requester and ID, right kind, the lower unit's own result *)
+    answers_ok ds ss [] (c_script c) (o_ticks c) &&
+    (* answers in arrival order, at most one per request *)
+    subseq (map rsp_to ts) (map q_id ds)
+  else true.
